@@ -438,7 +438,7 @@ def cases(rng, tier):
             yield {"k": "agpv", "mode": rng.choice(MODES + [6]), "trch": [list(x) for x in tc]}
         else:
             yield {"k": "tied", "seed": rng.randrange(2 ** 31)}
-    n = 40 if tier == "quick" else (600 if tier == "thorough" else 900)
+    n = 100 if tier == "quick" else (1500 if tier == "thorough" else 1200)
     for i in range(n):
         sd = gen_score(random.Random(rng.randrange(2 ** 62)))
         if tier == "quick":
